@@ -17,7 +17,7 @@ P = {
          "Histories over a tiny timestamp universe; after every op the stored domains are enumerated through the DB's own iterator and must be ordered, non-overlapping and fully readable; op outcomes are compared with the statement-level model; failed ops must not change committed data.",
          "Uses verif-tagged re-exports of cesium/internal/domain and unary.", "§3/C03"),
  "C04": ("exploration", "reference-model differential with deletes + GC metamorphic check",
-         "C01 scripts extended with arbitrary time-range deletes, synchronous GC passes, reopen and rewrites into freed gaps; reads equal model-minus-deleted; GC changes no read.",
+         "C01 scripts extended with arbitrary time-range deletes, synchronous GC passes, reopen and rewrites into freed gaps; reads equal model-minus-deleted; GC changes no read. A second layer biases the scripts to delete -> refill the same timestamps -> delete again (whole-session deletes, head cuts, boundary re-use).",
          "GC is invoked through a verif-tagged synchronous wrapper around the existing private garbageCollect.", "§3/C04"),
  "C05": ("exploration", "step-wise reference model of the gate list; porcupine linearizability check on concurrent gate histories; race detector",
          "Sequential histories at gate and writer level compared step-by-step to a 25-line reference; concurrent histories recorded at the call boundary and checked with porcupine.",
@@ -38,16 +38,16 @@ P = {
          "Command sequences on iterators over generated layouts; Value() must equal the stored samples inside View(); consecutive steps adjacent; full traversals complete and duplicate-free.",
          "unary.Iterator reached through verif-tagged re-export.", "§3/C10"),
  "C11": ("fault_enumeration", "event-log oracle over pledge transport under injected juror faults and stale views; real-cluster concurrent joins",
-         "Concurrent pledges through different members with failing/late jurors: admitted keys pairwise distinct, quorum approvals observed before each response.",
+         "Concurrent pledges through different members with failing/late jurors and per-member request timeouts: admitted keys pairwise distinct, quorum approvals observed before each response. Real cluster.Open scenarios with members leaving and the bootstrapper restarting: keys distinct over the whole life of the cluster.",
          "View model is a sound abstraction of SI gossip (views only grow).", "§3/C11"),
  "C12": ("exploration", "per-exchange monotonicity monitor + closing-phase convergence on real gossip/store",
-         "Sequences of exchanges/ticks/state changes/joins/restarts; after each exchange no record regresses; after an all-pairs closing phase all views identical and complete.",
-         "Mock unary transport.", "§3/C12"),
+         "Sequences of exchanges/ticks/state changes/joins/restarts; after each exchange no record regresses; after an all-pairs closing phase all views identical and complete. Run over the mock transport and over aspen's production gRPC transport on loopback.",
+         "Loopback only.", "§3/C12"),
  "C13": ("exploration", "at-most-once / no-stale / completeness checker over observer callback logs",
-         "Ingress-level accepted stream invariants and real-cluster OnChange logs with unique values.",
+         "Ingress-level accepted stream invariants and real-cluster OnChange logs with unique values; a stalled subscriber next to fast ones (fast logs must stay complete); stale redelivery after deletes learned by start-up recovery.",
          "Completeness only asserted inside bursts smaller than the smallest buffer.", "§3/C13"),
  "C14": ("exploration", "offline per-stream event-log checker (order, no-dup, terminal result) across mock/http/grpc transports",
-         "Generated client/handler script pairs on all transports; unique message ids; logs checked offline.",
+         "Generated client/handler script pairs on all transports; unique message ids and map/slice payload parts checksummed at receipt and at the end; logs checked offline. WebSocket: idle gaps longer than the write deadline; a deterministic slow-client witness of the open close-wait finding.",
          "Loopback only.", "§3/C14"),
  "C15": ("exploration", "cross-store sweep monitor after every step of channel create/rename/delete histories on mock clusters",
          "Keys ever issued kept by the monitor; after each step metadata and leaseholder engine compared key by key.",
@@ -65,7 +65,7 @@ P = {
          "Type-directed generated programs x boundary argument vectors; spec-silent cases are don't-cares.",
          "Only the scalar imperative fragment.", "§3/C19"),
  "C20": ("exploration", "offline stream-log checker with sentinel-delimited stable windows + stall detector",
-         "Writers and churned streamers on one DB; filtering, no-dup, per-writer order, unauthorized exclusion, completeness in stable windows, all calls return.",
+         "Writers (index groups with data channels, partial intruders, virtual channels) and churned streamers on one DB; filtering, no-dup, per-writer order, unauthorized exclusion, completeness in stable windows, all calls return; re-subscription to an empty list and streamers opened from one shared key slice.",
          "Non-blocking decided as no deadlock state observed.", "§3/C20"),
 }
 
